@@ -360,7 +360,7 @@ def references(ctx, tag, n_b, n_s):
 def unit(ctx, CS):
     from recognizers_text.extractor import ExtractResult
     r = ctx.rng('dateparser-unit')
-    refs = references(ctx, 'dateparser-refs', *((500, 400) if ctx.thorough else (30, 14)))
+    refs = references(ctx, 'dateparser-refs', *((250, 150) if ctx.thorough else (30, 14)))
     lines, impl, descs, sigs = [], [], [], []
     dispatch_bad = 0
     sunday_walks = [24 if ctx.thorough else 3]
@@ -596,7 +596,7 @@ def pipeline(ctx, CS):
     from recognizers_text.extractor import ExtractResult
     en = CS[0]
     r = ctx.rng('dateparser-pipeline')
-    refs = references(ctx, 'dateparser-pipe-refs', *((260, 200) if ctx.thorough else (10, 8)))
+    refs = references(ctx, 'dateparser-pipe-refs', *((80, 60) if ctx.thorough else (10, 8)))
     cases = []
     for i, R in enumerate(refs):
         texts = english_texts(r, R, i)
@@ -687,4 +687,4 @@ def run(ctx):
     pipeline(ctx, CS)
 
 
-FINGERPRINTS = {}
+FINGERPRINTS = {'BaseDateParser.parse': '7ef34b63170b189f', 'BaseDateParser.parse_implicit_date': '4f2120247cbf4084', 'BaseDateParser.parse_weekday_of_month': '5c86f6db6fbfb4c7', 'BaseDateParser._compute_date': '3f4aeef3540bd32a', 'BaseDateParser.parse_single_number': '2f87975185590418'}
